@@ -20,8 +20,16 @@ RUNS_PER_WF = {"quick": 4, "thorough": 6}
 def _one_wf(job):
     """Worker: one generated workflow, several executions with different outcome tables and schedules."""
     os.environ["CYLC_FLOW_VERIF"] = "1"
+    for attempt in range(3):
+        r = _one_wf_try(job)
+        if "error" in r and "BrokenBarrierError" in r["error"] and attempt < 2:
+            continue      # cylc's own start-up timeout on an overloaded machine: run the same case again
+        return r
+
+def _one_wf_try(job):
+    import random as _r
     from harness.sched import gen, modeltrace
-    rng = random.Random(job["seed"])
+    rng = _r.Random(job["seed"])
     w = gen.generate(rng, features=job["features"])
     runs = []
     try:
